@@ -88,8 +88,18 @@ Proof.
   assert (Nl : lo = bits_neg_inf -> lo <> x) by (intros -> <-; contradiction).
   assert (Nh : hi = bits_pos_inf -> hi <> x) by (intros -> <-; contradiction).
   rewrite Flt1, Flt2, Feq1, Feq2. rewrite Feq1 in Nl. rewrite Feq2 in Nh.
-  destruct (Z.eqb_spec lo bits_neg_inf) as [El|El]; destruct (Z.eqb_spec hi bits_pos_inf) as [Eh|Eh];
-    destruct il, ih; intuition (try lia; try congruence).
+  clear Flt1 Flt2 Feq1 Feq2 Gl Gh C E Il Ih Hneg Hpos Hf.
+  generalize dependent (f2i x). generalize dependent (f2i lo). generalize dependent (f2i hi).
+  intros fh fl fx _ Fx Nl Nh.
+  assert (HL : (if lo =? bits_neg_inf then il = true \/ min_int64 < fx
+                else fl < fx \/ fl = fx /\ (il = true \/ fx = max_int64))
+               <-> (lo = bits_neg_inf \/ fl < fx \/ il = true /\ fl = fx)).
+  { destruct (Z.eqb_spec lo bits_neg_inf) as [El|El]; destruct il; split; intros H; lia. }
+  assert (HU : (if hi =? bits_pos_inf then ih = true \/ fx < max_int64
+                else fx < fh \/ fh = fx /\ (ih = true \/ fx = min_int64))
+               <-> (hi = bits_pos_inf \/ fx < fh \/ ih = true /\ fh = fx)).
+  { destruct (Z.eqb_spec hi bits_pos_inf) as [Eh|Eh]; destruct ih; split; intros H; lia. }
+  rewrite HL, HU. reflexivity.
 Qed.
 
 (* the guard made visible: an exclusive lower end at the pattern whose sortable integer is MaxInt64
